@@ -1366,8 +1366,13 @@ _AST_MOD = "Proofs.AstExceptionsEquiv"
 # ast_exceptions_equiv = ast_is_server_error_code_equiv /\ ast_supports_code_inherited_equiv /\
 # ast_supports_code_range_equiv /\ ast_base_init_equiv /\ ast_server_error_init_equiv /\ ast_to_response_error_equiv
 # /\ ast_table_supports_code /\ ast_table_construct (one Print Assumptions instead of eight)
+# ast_from_error_equiv: JsonRpcException.from_error.  PyMini cannot run its text (a `for` over the module global
+# `_EXCEPTIONS`, a classmethod call / a constructor call on the loop variable), so the for / if / return skeleton is
+# Gallina (ast_from_error_walk) and each supports_code test and each `C(code=.., message=.., data=..)` in it runs the
+# TRANSLATED function the class's reflected row names; for every code / message / data the walk over the reflected
+# `_EXCEPTIONS` equals Model/Exceptions.v's from_error.
 C07.obligations = list(C07.obligations) + [_AST_MOD + "::" + n for n in (
-    "ast_exceptions_equiv", "ast_exceptions_example")]
+    "ast_exceptions_equiv", "ast_exceptions_example", "ast_from_error_equiv", "ast_from_error_example")]
 C07.coq_targets = list(C07.coq_targets) + ["Proofs/AstExceptionsEquiv.vo"]
 C07.trusted_base = list(C07.trusted_base) + [
     "translator tie: harness/gen_ast.py (Python ast -> PyMini, fail-closed) and the PyMini semantics "
